@@ -22,6 +22,8 @@
 static int etk = VT_INT;
 struct Slot { var obj; int kind; /* 1 Array 2 List 3 Tuple */ int managed; };
 static const char* kind_name(int k) { return k == 1 ? "Array" : k == 2 ? "List" : "Tuple"; }
+static void __attribute__((noinline)) new_with_alien(var kt, var et, var g1, var alien, var g2) { var n = new(kt, et, g1, alien, g2); (void)n; }
+static void __attribute__((noinline)) churn_ints(int k) { for (int i = 0; i < k; i++) { var g = new(Int, $I(i)); (void)g; } }
 static var kind_type(int k) { return k == 1 ? Array : k == 2 ? List : Tuple; }
 
 /* element objects handed to Tuples (a Tuple only stores pointers); freed at reset */
@@ -345,6 +347,16 @@ int main(int argc, char** argv) {
       else if (!strcmp(what, "concat_int")) { HC_TRY(concat(c, $I(3))); }
       else if (!strcmp(what, "assign_int")) { HC_TRY(assign(c, $I(3))); }
       else if (!strcmp(what, "resize_grow")) { idx = L + 3; HC_TRY(resize(c, (size_t)idx)); }   /* Tuple only */
+      else if (!strcmp(what, "new_alien")) {
+        /* a constructor that is handed an element it cannot take (between two good ones): it raises; what it leaves behind
+           is managed by the collector, which must survive meeting it - the garbage loop forces collections */
+        var g1 = vt_make(vt_k, 1), g2 = vt_make(vt_k, 1);
+        HC_TRY(new_with_alien(kind_type(so->kind), vt_type(etk), g1, alien, g2));
+        vt_free(g1); vt_free(g2);
+        static char saved[64]; snprintf(saved, sizeof saved, "%s", hc_exc);
+        HC_TRY(churn_ints(3000));
+        if (hc_exc[0]) { static char later[96]; snprintf(later, sizeof later, "later:%s", hc_exc); hc_exc = later; } else hc_exc = saved;
+      }
       else { fprintf(stderr, "unknown bad op %s\n", what); return 9; }
       if (!isT) vt_free(e1);
       del_raw(alien);
